@@ -150,10 +150,13 @@ func (s *state) get(v ir.Value) ValueNilness {
 		return ValueNilness{Outer: NeverNil}
 	}
 	num := s.n.number(v)
-	if num < len(s.m) {
+	if num < len(s.m) && s.m[num] != (lattice{}.Ident()) {
 		return s.m[num]
 	}
 
+	// Nothing has been recorded for v. That is also the case when v's slot
+	// exists only because a value with a higher number has been recorded, so
+	// the defaults have to apply then, too.
 	switch v.(type) {
 	case *ir.Parameter:
 		return ValueNilness{Inner: MaybeNil, Outer: MaybeNil}
